@@ -4,6 +4,7 @@
   seedtest.py intake <name> <worktree> <property>   verify the agent's claims in its worktree, store under /verif/seeded/<name>/
   seedtest.py run <name> [props...] [--no-proof]    apply the patch to /repo, run the quick checks, undo, record which checks fire
   seedtest.py all [--no-proof]                      run every stored seeded defect against the check of its own property
+  --rig                                             do it in a private copy of /verif against a scratch worktree (not /repo)
 """
 import json, os, shutil, subprocess, sys
 
@@ -26,11 +27,13 @@ def intake(name, wt, prop):
     rc, diff = sh("git diff -- purl/src", cwd=wt)
     open(os.path.join(d, "patch.diff"), "w").write(diff)
     ran = []
-    # 1. with the change: existing suite passes, demo fails
-    shutil.copy(os.path.join(d, "demo.rs"), os.path.join(wt, "purl", "tests", "seeded_demo.rs")) if os.path.isdir(os.path.join(wt, "purl", "tests")) else (os.makedirs(os.path.join(wt, "purl", "tests")), shutil.copy(os.path.join(d, "demo.rs"), os.path.join(wt, "purl", "tests", "seeded_demo.rs")))
-    rc_suite, out_suite = sh("cargo nextest run --workspace --offline -E 'not binary(seeded_demo)' 2>&1 | tail -5", cwd=wt)
+    # 1. with the change: existing suite passes (run before the demo is copied in: a demo that needs a feature must not
+    #    break the default-feature build of the workspace), demo fails
+    rc_suite, out_suite = sh("cargo nextest run --workspace --offline 2>&1 | tail -5", cwd=wt)
     suite_ok = "181 passed" in out_suite
-    ran.append("with change: cargo nextest run --workspace --offline -E 'not binary(seeded_demo)' -> " + out_suite.strip().split("\n")[-1])
+    ran.append("with change: cargo nextest run --workspace --offline -> " + out_suite.strip().split("\n")[-1])
+    os.makedirs(os.path.join(wt, "purl", "tests"), exist_ok=True)
+    shutil.copy(os.path.join(d, "demo.rs"), os.path.join(wt, "purl", "tests", "seeded_demo.rs"))
     feat = " --features serde" if "demo_setup" in meta else ""
     rc_demo_with, out = sh("cargo test --offline -p purl%s --test seeded_demo 2>&1 | grep 'test result' | tail -1" % feat, cwd=wt)
     demo_with = out.strip()
@@ -50,36 +53,64 @@ def intake(name, wt, prop):
     return ok
 
 
-def run(name, props, no_proof=False):
+def make_rig(tag="s"):
+    """a private copy of /verif whose harness points at a scratch worktree of /repo (nothing touches /repo itself)"""
+    wt, rig = "/tmp/mw-%s" % tag, "/tmp/vj-%s" % tag
+    sh("git -C /repo worktree remove --force " + wt)
+    shutil.rmtree(wt, ignore_errors=True)
+    shutil.rmtree(rig, ignore_errors=True)
+    rc, out = sh("git -C /repo worktree add --detach %s HEAD" % wt)
+    assert rc == 0, out
+    rc, out = sh("rsync -a --exclude .git --exclude replays --exclude mutants %s/ %s/" % (ROOT, rig))
+    assert rc == 0, out
+    ct = os.path.join(rig, "harness", "Cargo.toml")
+    c = open(ct).read()
+    open(ct, "w").write(c.replace('path = "/repo/purl"', 'path = "%s/purl"' % wt))
+    return wt, rig
+
+
+def drop_rig(tag="s"):
+    wt, rig = "/tmp/mw-%s" % tag, "/tmp/vj-%s" % tag
+    sh("git -C /repo worktree remove --force " + wt)
+    shutil.rmtree(wt, ignore_errors=True)
+    shutil.rmtree(rig, ignore_errors=True)
+    sh("git -C /repo worktree prune")
+
+
+def run(name, props, no_proof=False, rig=None):
     d = os.path.join(ROOT, "seeded", name)
     meta = json.load(open(os.path.join(d, "meta.json")))
     props = props or [meta["property"]]
-    rc, out = sh("git -C /repo status --porcelain --untracked-files=no")
+    repo, root, env = "/repo", ROOT, ENV
+    if rig:
+        repo, root = rig
+        env = dict(ENV, PURL_REPO=repo)
+    rc, out = sh("git -C %s status --porcelain --untracked-files=no" % repo)
     if out.strip():
-        print("refusing: /repo has local changes:\n" + out)
+        print("refusing: %s has local changes:\n" % repo + out)
         sys.exit(2)
-    rc, out = sh("git -C /repo apply " + os.path.join(d, "patch.diff"))
+    rc, out = sh("git -C %s apply %s" % (repo, os.path.join(d, "patch.diff")))
     if rc != 0:
         print("patch does not apply: " + out)
         return
     res = {}
     try:
         for p in props:
-            cmd = [os.path.join(ROOT, "check"), p] + (["--no-proof"] if no_proof else [])
-            q = subprocess.run(cmd, cwd=ROOT, env=ENV, stdout=subprocess.PIPE, stderr=subprocess.PIPE)
+            cmd = [os.path.join(root, "check"), p] + (["--no-proof"] if no_proof else [])
+            q = subprocess.run(cmd, cwd=root, env=env, stdout=subprocess.PIPE, stderr=subprocess.PIPE)
             lines = [l for l in q.stdout.decode().split("\n") if l.startswith("VIOLATION")]
             detail = ""
             if lines:
                 rp = lines[0].split("replay=")[1].split(" ")[0]
                 try:
-                    r = json.load(open(os.path.join(ROOT, rp)))
+                    r = json.load(open(os.path.join(root, rp)))
                     detail = (r.get("decoded", "") + " :: " + str(r.get("oracle", r.get("kind"))))[:300]
                 except Exception:
                     pass
             res[p] = {"exit": q.returncode, "violation_lines": lines[:3], "first": detail}
             print("  %s on %s: exit %d %s %s" % (p, name, q.returncode, lines[0] if lines else "", detail[:160]))
     finally:
-        sh("git -C /repo checkout -- .")
+        sh("git -C %s checkout -- ." % repo)
     meta.setdefault("checks", {}).update(res)
     json.dump(meta, open(os.path.join(d, "meta.json"), "w"), indent=1, ensure_ascii=False)
 
@@ -87,14 +118,24 @@ def run(name, props, no_proof=False):
 def main():
     a = sys.argv[1:]
     no_proof = "--no-proof" in a
-    a = [x for x in a if x != "--no-proof"]
+    use_rig = "--rig" in a
+    a = [x for x in a if x not in ("--no-proof", "--rig")]
+    rig = make_rig() if use_rig and a[0] in ("run", "all") else None
     if a[0] == "intake":
         intake(a[1], a[2], a[3])
     elif a[0] == "run":
-        run(a[1], a[2:], no_proof)
+        try:
+            run(a[1], a[2:], no_proof, rig)
+        finally:
+            if rig:
+                drop_rig()
     elif a[0] == "all":
-        for name in sorted(os.listdir(os.path.join(ROOT, "seeded"))):
-            run(name, [], no_proof)
+        try:
+            for name in sorted(os.listdir(os.path.join(ROOT, "seeded"))):
+                run(name, [], no_proof, rig)
+        finally:
+            if rig:
+                drop_rig()
 
 
 if __name__ == "__main__":
